@@ -758,6 +758,9 @@ func Test_matchFilter(t *testing.T) {
 			{name: "string with int", filter: fString, value: intValue, want: false},
 			{name: "bool with float", filter: fBoolean, value: floatValue, want: false},
 			{name: "number with string", filter: fNumber, value: stringValue, want: false},
+			{name: "number with string array", filter: fNumber, value: []interface{}{stringValue}, want: false},
+			{name: "string with empty array", filter: fString, value: []interface{}{}, want: false},
+			{name: "array with string array", filter: Filter{Type: "array"}, value: []interface{}{stringValue}, want: true},
 		}
 
 		for _, testCase := range testCases {
@@ -809,6 +812,12 @@ func Test_matchFilter(t *testing.T) {
 				require.NoError(t, err)
 				assert.Equal(t, "value", value)
 				assert.True(t, match)
+			})
+			t.Run("array without matching element", func(t *testing.T) {
+				match, value, err := matchFilter(Filter{Type: "string", Pattern: to.Ptr("[0-9]+")}, []interface{}{"value", "other"})
+				require.NoError(t, err)
+				assert.Nil(t, value)
+				assert.False(t, match)
 			})
 			t.Run("too many capture groups", func(t *testing.T) {
 				match, value, err := matchFilter(Filter{Type: "string", Pattern: to.Ptr("(v)(a)lue")}, "value")
